@@ -216,8 +216,11 @@ def _gallia():
             st = self.state
             k = st.k
             st.k += 1
+            if k > st.read_cap:
+                raise _TooManyReads()  # beyond the proved bound on reads (reads_le / reads_le_io): the request does not end
             ev = st.script.at(k)
-            st.log.append(("r", st.now(), k, timeout, self.is_closed))
+            if len(st.log) < 5000:
+                st.log.append(("r", st.now(), k, timeout, self.is_closed))
             if st.x and ev == "t" and timeout is None:
                 raise TimeoutError("scripted read")  # a transport-internal timeout: no deadline was given
             async with asyncio.timeout(timeout):
@@ -278,6 +281,7 @@ def _gallia():
             self.R = reqs[case["req"] % len(reqs)]
             self.log = []
             self.t0 = 0.0
+            self.read_cap = _read_cap(case)
 
         def now(self):
             return asyncio.get_event_loop().time() - self.t0
@@ -350,6 +354,8 @@ async def impl_case(case):
             resp = await _bounded(client.request(req, cfg), _time_cap(case))
         except _Unbounded:
             raise
+        except _TooManyReads:
+            raise _Unbounded() from None
         except Exception as e:
             if st.rc_raised is not None and isinstance(e, OSError) and _in_chain(e, st.rc_raised):
                 # the exception of the failed reconnect (or a re-raise of it) ends the request; its kind is what counts
@@ -449,6 +455,19 @@ def _in_chain(e, target):
 
 class _WEscaped(Exception):
     pass
+
+
+class _TooManyReads(BaseException):
+    """raised by the scripted transport: more reads than `reads_le` allows for the case's configuration (no `except Exception`
+    of the code under test may swallow it)"""
+
+
+def _read_cap(case):
+    ts = [t for t in (case.get("ct"), case.get("rt")) if t]
+    T = max(ts + [0]) / 1000
+    mr = max(case.get("cm") or 0, case.get("rm") or 0)
+    max_nt = int(-(-max(T, 20.0) // 0.5))
+    return int(1.1 * (mr + 1) * (2 + 119 * (max_nt + 1) + max_nt + 1)) + 50
 
 
 class _Unbounded(Exception):
